@@ -7,6 +7,8 @@ CONSTANTS
   IdxKeyMode = "abs"
   ImgKeepMode = "none"
   LookupsCap = 64
+  FailKeep = FALSE
+  RegionMemo = FALSE
   MaxDepth = 3
   MaxDepthDmg = 2
   MaxDepthCollide = 2
@@ -17,6 +19,8 @@ CONSTANTS
   FillKeys = 80
   FillLangs = 1
   FillLookups = 1
+  MaxDepthVar = 2
+  VarTuples = {"t0", "tA", "tB", "tC"}
   MaxDepthScopes = 2
 SPECIFICATION Spec
 VIEW View
